@@ -47,6 +47,22 @@ def _guard(k, n, lvl, body, x=0, style=0):
     return ("<%% %s %%>" % call) if style % 2 == 0 else ("${%s}" % call)
 
 
+# Member names are opaque in Inherit.tla (f, a, b, c); the concretiser writes them in one of these classes
+# (cfgd["nc"], rotated over the configurations so that every family meets every class in every run).
+# Names equal to Namespace attributes/methods (uri, body, template, ...) are not used: what wins there is not documented.
+NAME_CLASSES = [
+    {"f": "f", "a": "a", "b": "b", "c": "c"},                                  # ordinary
+    {"f": "_f", "a": "_a", "b": "_b", "c": "_c"},                              # leading underscore
+    {"f": "__f", "a": "__a", "b": "__b", "c": "__c"},                          # double leading underscore
+    {"f": "print", "a": "type", "b": "id", "c": "input"},                      # legal identifiers that are builtins
+    {"f": "fooBar", "a": "attrVal", "b": "mainBlock", "c": "Inner_Block2"},    # mixed case
+]
+
+
+def cn(cfgd, name):
+    return NAME_CLASSES[cfgd.get("nc", 0) % len(NAME_CLASSES)][name]
+
+
 def script_text(cfgd, i, ops, style):
     """Template text of one script of template i (1-based); named blocks are written at their
     `here` position."""
@@ -66,12 +82,12 @@ def script_text(cfgd, i, ops, style):
         elif op == "emit":
             parts.append("{%s|%s|%d|0}" % (via, name, i))
         elif op == "call":
-            parts.append(_guard("call", "%s.%s" % (via, name), i, "%s.%s()" % (via, name), 0, style))
+            parts.append(_guard("call", "%s.%s" % (via, name), i, "%s.%s()" % (via, cn(cfgd, name)), 0, style))
         elif op == "attr":
-            parts.append(_guard("attr", via, i, "context.write('{val||%%d|%%d}' %% av(%s.attr.%s))" % (via, name), 0, style))
+            parts.append(_guard("attr", via, i, "context.write('{val||%%d|%%d}' %% av(%s.attr.%s))" % (via, cn(cfgd, name)), 0, style))
         elif op == "here":
             inner = script_text(cfgd, i, t["bs"] if name == "b" else t["cs"], style)
-            parts.append('<%%block name="%s">%s</%%block>' % (name, inner))
+            parts.append('<%%block name="%s">%s</%%block>' % (cn(cfgd, name), inner))
         elif op == "body":
             if pa:
                 v = 10 * i + 1
@@ -103,11 +119,11 @@ def template_texts(cfgd, style, uri_of):
             c2 = uris[t["p2"]][1] if t["p2"] else None
             head.append('<%%inherit file="${%r if context[\'sw\'] == \'p1\' else (%r if context[\'sw\'] == \'p2\' else None)}"/>' % (c1, c2))
         if t["a"] == "truthy":
-            head.append("<%%! a = %d %%>" % i)
+            head.append("<%%! %s = %d %%>" % (cn(cfgd, "a"), i))
         elif t["a"] == "falsy":      # a different falsy value per level
-            head.append("<%%! a = %s %%>" % FALSY[(i - 1) % len(FALSY)])
+            head.append("<%%! %s = %s %%>" % (cn(cfgd, "a"), FALSY[(i - 1) % len(FALSY)]))
         if t["f"]:
-            head.append('<%%def name="f()">%s</%%def>' % script_text(cfgd, i, t["fs"], style))
+            head.append('<%%def name="%s()">%s</%%def>' % (cn(cfgd, "f"), script_text(cfgd, i, t["fs"], style)))
         text = "\n".join(head) + ("\n" if head else "") + script_text(cfgd, i, t["body"], style + i) + "\n"
         h = hashlib.sha1(text.encode()).hexdigest()[:16]
         texts[i] = text
@@ -214,7 +230,7 @@ def render_cfg(cfgd, style, backed):
 
 def _render_batch(args):
     items, style = args
-    return [(idx, backed, render_cfg(cfgd, style + idx % 7, backed)) for (idx, cfgd, backed) in items]
+    return [(idx, backed, render_cfg(dict(cfgd, nc=idx + style), style + idx % 7, backed)) for (idx, cfgd, backed) in items]
 
 
 def _compile_shape(args):
@@ -482,10 +498,16 @@ def check(run):
                 bad_classes.setdefault(sig, []).append((idx, backed, obs, d))
     run.traces += n_exec
     run.transitions += sum(len(r["out"]) for r in recs)
+    # a disagreement class met under one class of member names only is a different class of failure
+    labels = ["ordinary", "leading-underscore", "double-underscore", "builtin-name", "mixed-case"]
+    for sig in list(bad_classes):
+        ncs = {(z[0] + run.seed) % len(NAME_CLASSES) for z in bad_classes[sig]}
+        if len(ncs) == 1 and len(bad_classes[sig]) >= 3:
+            bad_classes[sig + ":member-names(%s)" % labels[ncs.pop()]] = bad_classes.pop(sig)
     for sig in sorted(bad_classes):
         idx, backed, obs, d = min(bad_classes[sig], key=lambda z: (recs[z[0]]["N"], len(recs[z[0]]["out"]), z[0]))
         r = recs[idx]
-        texts, uris = template_texts(r, run.seed + idx % 7, lambda h, st: ("t_%s" % h, "t_%s" % h))
+        texts, uris = template_texts(dict(r, nc=idx + run.seed), run.seed + idx % 7, lambda h, st: ("t_%s" % h, "t_%s" % h))
         run.violation(sig, "real render disagrees with Inherit.tla at token %d: expected %s, observed %s (%d configurations in this class)"
                       % (d, r["out"][d] if d < len(r["out"]) else "END", obs[d] if d < len(obs) else "END", len(bad_classes[sig])),
                       {"config": {k: r[k] for k in ("fam", "N", "sw", "pa", "mode")}, "file_backed": backed,
@@ -547,6 +569,7 @@ def check(run):
     traces = []
     for t in range(n_traces):
         c = random_cfg(run.rng, run.rng.choice(lens))
+        c["nc"] = t + run.seed
         for backed in ((False, True) if t % 4 == 0 else (t % 2 == 1,)):
             obs = render_cfg(c, run.seed + t, backed)
             traces.append({"id": len(traces) + 1, "cfg": c, "out": [_safe_tok(s) for s in obs], "backed": backed})
